@@ -179,7 +179,7 @@ def schedule_sites(ctx, prop):
             # a direct push onto the agenda outside schedule() is a scheduling site too: (time, priority, id, event)
             is_push = isinstance(node, ast.Call) and isinstance(node.func, ast.Name) and node.func.id == 'heappush' \
                 and len(node.args) == 2 and isinstance(node.args[0], ast.Attribute) and node.args[0].attr == '_queue' \
-                and f.qualname != 'Environment.schedule'
+                and root_callers(ctx.repo, f, stop=('Environment.schedule',)) != {'Environment.schedule'}
             if is_sched or is_push:
                 n += 1
                 ctx.touch(f)
